@@ -16,6 +16,10 @@ type lineLimitReader struct {
 	LineLimit int
 
 	curLineLength int
+
+	// rest is what has been read from R but not handed out yet, because
+	// that would have gone beyond LineLimit.
+	rest []byte
 }
 
 func (r *lineLimitReader) Read(b []byte) (int, error) {
@@ -23,23 +27,36 @@ func (r *lineLimitReader) Read(b []byte) (int, error) {
 		return 0, ErrTooLongLine
 	}
 
-	n, err := r.R.Read(b)
-	if err != nil {
-		return n, err
+	var n int
+	if len(r.rest) > 0 {
+		n = copy(b, r.rest)
+		r.rest = r.rest[n:]
+	} else {
+		var err error
+		n, err = r.R.Read(b)
+		if err != nil {
+			return n, err
+		}
 	}
 
 	if r.LineLimit == 0 {
 		return n, nil
 	}
 
-	for _, chr := range b[:n] {
+	lineStart := 0
+	for i, chr := range b[:n] {
 		if chr == '\n' {
 			r.curLineLength = 0
+			lineStart = i + 1
 		}
 		r.curLineLength++
 
 		if r.curLineLength > r.LineLimit {
-			return 0, ErrTooLongLine
+			// Nothing of this line is handed out, and the next Read fails.
+			// Unless the limit is lifted first: what has been read ahead may
+			// be data that is not made of lines (a BDAT chunk), so keep it.
+			r.rest = append(append([]byte{}, b[lineStart:n]...), r.rest...)
+			return lineStart, nil
 		}
 	}
 
